@@ -313,6 +313,10 @@ def sandbox_dirs(root, recipe):
     mode = recipe.get("outdir", "abs")
     out_abs = os.path.join(root, "out", "new", "sub") if mode == "new" else os.path.join(root, "out")
     out_arg = os.path.relpath(out_abs, os.path.join(root, "cwd")) if mode == "rel" else out_abs
+    if mode == "linkdotdot":
+        # <root>/cwd/lnk is a symbolic link to <root>/out/inner: the operating system resolves `lnk/..` to <root>/out,
+        # whereas cancelling `..` against `lnk` in the string would give <root>/cwd
+        out_arg = os.path.join(root, "cwd", "lnk", "..")
     return cmap_abs, out_abs, out_arg
 
 
@@ -329,6 +333,9 @@ def make_sandbox(recipe):
     root = os.path.realpath(tempfile.mkdtemp(prefix="c15-", dir=_sandbox_base()))
     for d in ("out", "outside", "cmap", "cwd"):
         os.mkdir(os.path.join(root, d))
+    if recipe.get("outdir") == "linkdotdot":
+        os.mkdir(os.path.join(root, "out", "inner"))
+        os.symlink(os.path.join(root, "out", "inner"), os.path.join(root, "cwd", "lnk"))
     for d in recipe.get("out_dirs", []):
         os.makedirs(os.path.join(root, "out", d))
     for name, content in recipe.get("out", []):
@@ -852,7 +859,7 @@ def image_item(draw, idx, recipe, slot=None):
     variant = draw(st.sampled_from(sorted(EXT)))
     ext = EXT[variant]
     it = {"t": "image", "slot": slot, "kind": kind, "h": None, "variant": variant, "res": b"Im%d" % idx,
-          "form_res": b"Fm%d" % idx, "draws": rnd.choice([1, 1, 2]), "name_entry": None}
+          "form_res": b"Fm%d" % idx, "draws": rnd.choice([1, 1, 2, 3]), "name_entry": None}
     if slot == "inline":
         it["kind"] = "benign"
         return it
@@ -863,7 +870,11 @@ def image_item(draw, idx, recipe, slot=None):
         h = rnd.choice([b"Im%d" % idx, b"pic", _word(rnd, 1, 3)])
         # (now and then more numbered names are taken than any fixed number of attempts would try)
         names = [h.decode() + ext] + [h.decode() + ".%d%s" % (k, ext)
-                                      for k in range(rnd.choice([0, 1, 2, 3, 1005 if rnd.random() < 0.15 else 2]))]
+                                      for k in range(rnd.choice([0, 1, 2, 3, 4, 1005 if rnd.random() < 0.15 else 2]))]
+        if len(names) >= 4 and len(names) < 100 and rnd.random() < 0.5:
+            # a gap in the numbered names (a file of an earlier run was deleted): the next free name is inside the gap,
+            # the names after it are still taken
+            del names[rnd.randrange(2, len(names) - 1)]
         empty = rnd.random() < 0.3  # an existing file is an existing file, also when it is empty
         for nm in names:
             recipe["out"].append([nm, b"" if empty and rnd.random() < 0.7 else b"PRE:" + nm.encode()])
@@ -916,7 +927,7 @@ def cases(draw, focus):
             items.append(draw(image_item(i, recipe)))
     if any(it["slot"] == "regord" for it in items) and draw(st.integers(0, 4)) > 0:
         recipe["cmap_dirs"] = ["to-unicode-", "to-unicode-Adobe-", "to-unicode-X-"]
-    recipe["outdir"] = draw(st.sampled_from(["abs", "abs", "abs", "abs", "rel", "rel", "new"]))
+    recipe["outdir"] = draw(st.sampled_from(["abs", "abs", "abs", "abs", "rel", "rel", "new", "linkdotdot"]))
     recipe["cmap_sub"] = draw(st.sampled_from(["", "", "", "deep/er/still"]))
     recipe["cmap_env"] = draw(st.sampled_from(["set", "set", "set", "unset"]))
     # several items may ask for the same pre-populated name: keep the first
